@@ -29,7 +29,8 @@ for d in $demos; do
   pkgs="$pkgs ./$(dirname $place)"
 done
 pkgs=$(echo $pkgs | tr ' ' '\n' | sort -u | tr '\n' ' ')
-run_demo() { go test -vet=off -count=1 -timeout 10m -run 'Demo' $pkgs > /tmp/scr/$id.demo.$1 2>&1; echo $?; }
+NS=""; if unshare -n true 2>/dev/null; then NS="unshare -n"; fi
+run_demo() { $NS sh -c "ip link set lo up 2>/dev/null; exec go test -vet=off -count=1 -timeout 10m -run Demo $pkgs" > /tmp/scr/$id.demo.$1 2>&1; echo $?; }
 rc_with=$(run_demo with)
 git apply -R $src/patch.diff
 rc_without=$(run_demo without)
